@@ -59,8 +59,9 @@ Qed.
 Section WALK.
 Variable db : odb.
 
+(* the trees of the object database that decode completely *)
 Definition sdb_of : sdb :=
-  fun id => match find_tree_iter db id with Ok (es, _) => Some es | _ => None end.
+  fun id => match find_tree_iter db id with Ok (es, false) => Some es | _ => None end.
 
 (* the trees reachable from a list of entries exist, decode completely, have height <= k, and no name contains '/' *)
 Fixpoint wfl (k : nat) (L : list entry) : Prop :=
